@@ -65,7 +65,8 @@ func (f *Dotimes) Call(s *slip.Scope, args slip.List, depth int) slip.Object {
 			slip.TypePanic(s, depth, "dotimes input var", input[0], "symbol")
 		}
 		sym = slip.Symbol(strings.ToLower(string(sym)))
-		if i, ok2 := ns.Eval(input[1], d2).(slip.Integer); ok2 {
+		// The count form is evaluated in the enclosing scope, before the variable exists.
+		if i, ok2 := s.Eval(input[1], d2).(slip.Integer); ok2 {
 			max = i.Int64()
 		} else {
 			slip.TypePanic(s, depth, "dotimes input count", input[1], "integer")
